@@ -224,16 +224,34 @@ func discharge(o *Obligation, dir string, timeoutS int) {
 	o.Output = strings.Join(outs, "\n")
 }
 
+// maxFailures: once this many obligations have come back not-proved, the remaining ones are skipped (the verdict is
+// already a violation; every further red obligation costs a full solver timeout).
+var maxFailures = 4
+
 func dischargeAll(obls []*Obligation, dir string, timeoutS int, par int) {
 	var wg sync.WaitGroup
+	var mu sync.Mutex
+	nfail := 0
 	sem := make(chan struct{}, par)
 	for _, o := range obls {
+		mu.Lock()
+		stop := nfail >= maxFailures
+		mu.Unlock()
+		if stop {
+			o.Status = "skipped"
+			continue
+		}
 		wg.Add(1)
 		sem <- struct{}{}
 		go func(o *Obligation) {
 			defer wg.Done()
 			defer func() { <-sem }()
 			discharge(o, dir, timeoutS)
+			if !o.Cover && o.Status != "proved" {
+				mu.Lock()
+				nfail++
+				mu.Unlock()
+			}
 		}(o)
 	}
 	wg.Wait()
